@@ -124,3 +124,34 @@ macro_rules! rekey_one_of_two {
 }
 rekey_one_of_two!(k_rekey_first_of_two_rights, true);
 rekey_one_of_two!(k_rekey_second_of_two_rights, false);
+
+/// prune from an ARBITRARY state: pruned right with a 2-secret chain, another right with a 2-secret chain, all eight
+/// flags / flavours symbolic. Exactly the front of the pruned chain stays -- with ITS flag and flavour (C06: pruning never
+/// re-enables a right; C05: the older secret is gone) -- and the other right is untouched, flags included.
+#[kani::proof]
+#[kani::unwind(5)]
+#[kani::stub(zeroize::optimization_barrier, nop_barrier)]
+#[kani::stub(alloc::fmt::format, no_format)]
+fn k_prune_chain2_mixed() {
+    let h = distinct4();
+    let a: [bool; 4] = kani::any();
+    let y: [bool; 4] = kani::any();
+    let mut msk = mk_msk(elt());
+    msk.secrets.map.insert(Right(vec![]), ll![(a[0], secret(h[0], y[0])), (a[1], secret(h[1], y[1]))]);
+    msk.secrets.map.insert(Right(vec![1]), ll![(a[2], secret(h[2], y[2])), (a[3], secret(h[3], y[3]))]);
+    let mut set = HashSet::new();
+    set.insert(Right(vec![]));
+    prune(&mut msk, &set);
+    kani::cover!(!a[0] && a[1], "front disabled, pruned secret was flagged activated");
+    kani::cover!(!y[0] && y[1], "front classic, pruned secret was hybridized");
+    let c = msk.secrets.get(&Right(vec![])).unwrap();
+    assert!(c.len() == 1, "prune must leave exactly the newest secret");
+    let f = c.front().unwrap();
+    assert!(sk_of(&f.1) == h[0] && f.0 == a[0] && f.1.is_hybridized() == y[0], "prune changed the secret / flag / flavour of the front");
+    let o = msk.secrets.get(&Right(vec![1])).unwrap();
+    assert!(o.len() == 2, "prune touched another right");
+    let (o0, o1) = (o.front().unwrap(), o.back().unwrap());
+    assert!(sk_of(&o0.1) == h[2] && o0.0 == a[2] && o0.1.is_hybridized() == y[2], "prune touched another right");
+    assert!(sk_of(&o1.1) == h[3] && o1.0 == a[3] && o1.1.is_hybridized() == y[3], "prune touched another right");
+    std::mem::forget(msk);
+}
